@@ -5,7 +5,7 @@ BOUNDS = {
     'quick': {'text': 'every string of length 0..2 and every 4th of length 3 over {a _ space ~ \\ n $ { } ( ) " \'}; every string of length 4 and a 16th of length 5 over each of the sub-alphabets {\' \\ ~ a}, {" \\ $ a}, {$ { } a} (shape)', 'environment': 'HOME and every referenced name independently unset / empty / 1-2 arbitrary non-NUL bytes (symbolic)',
               'scratch memory': 'newbuff[], EnvVar, Command and the input buffer beyond its terminator start nondeterministic', 'CONFIG_BUFF': 'scaled to 64 through the LIBAST_VERIF_CONFIG_BUFF hook',
               '%-calls': '12 concrete skeletons over put/get/version with a symbolic store value', 'store': 'one step from every strictly ascending store of 0..3 entries, probe symbolic'},
-    'thorough': {'text': 'length 0..4 over the 13-letter alphabet (30941 strings; the driver reports how far its budget reached), length 4..5 over the three sub-alphabets', 'environment': 'same', 'CONFIG_BUFF': 'same'},
+    'thorough': {'text': 'length 0..3 over the 13-letter alphabet completely and an eighth of length 4 (a sixteenth for the over-read family), length 4..5 over the three sub-alphabets completely', 'environment': 'same', 'CONFIG_BUFF': 'same'},
 }
 RULE = 'C10 shapes: (text length, text index) - the text is concrete per query; environment, store contents and all uninitialised memory are symbolic.'
 ASSUMPTIONS = ['the reference expander in harness/c10_expand.c transcribes the rules of the property statement; a trailing backslash stays as it is; "$" with an empty name expands to nothing',
@@ -45,6 +45,10 @@ def families(tier):
     for n in range(0, 4):
         for op, on in enumerate(('get', 'put', 'delete')):
             h.add('C10/store/%s/n=%d' % (on, n), 'h_store', n, op)
+    if not q:
+        # thorough: lengths 0..3 completely, an eighth (expansion) / a sixteenth (over-read) of length 4 by a scrambled index
+        f.obls = [o for o in f.obls if not o.oid.startswith('C10/expand/len=4') or (o.args[1] * 40503 + 11) % 65521 % 8 == 0]
+        g.obls = [o for o in g.obls if not o.oid.startswith('C10/overread/len=4') or (o.args[1] * 40503 + 5) % 65521 % 16 == 0]
     if q:
         # quick: lengths 0..2 completely, and every 4th string of length 3 (the full length-3 sweep is in thorough)
         f.obls = [o for o in f.obls if not o.oid.startswith('C10/expand/len=3') or (o.args[1] % 4 == 0)]
